@@ -40,6 +40,19 @@ Theorem C10_api_returns : forall ls a, let s := exec good init ls in step good s
 Proof. exact api_after_stop_returns. Qed.
 Print Assumptions C10_api_returns.
 
+(* Stop returns - bounded escape, no fairness assumed: from EVERY reachable state and for every Stop
+   call k in progress there is a continuation of at most 5 + 3 x (number of sessions) steps, made
+   only of Stop k's own steps and of steps of the sessions' write pumps and close callbacks (no
+   step of the network, of a peer, of a handler, of a handshake or of another caller), after which
+   Stop k has returned; then Serve returns by its own next step *)
+Theorem C10_stop_returns : forall ls k, let s := exec good init ls in k < length (stops s) ->
+  exists hl, length hl <= 5 + 3 * length (ss s) /\ Forall (fun l => l = LStop k \/ is_pump l) hl /\ exists b, getP (exec good s hl) k = PRet b.
+Proof. exact stop_returns. Qed.
+Print Assumptions C10_stop_returns.
+Theorem C10_serve_returns : forall ls, let s := exec good init ls in done s = true -> serve s = true -> step good s LServe = Some (s <| serve := false |>).
+Proof. exact serve_returns. Qed.
+Print Assumptions C10_serve_returns.
+
 (* the code as it was, refuted: any API call after Stop, and a second Stop, kill the process *)
 Theorem C10_old_api_after_stop_refuted :
   crashed (exec (mkCfg true false true true true true true true true true true) init [LNewStop; LStop 0; LStop 0; LApi AOpen]) = true.
